@@ -45,7 +45,7 @@ ASSUMPTIONS = [
 
 
 def run_lean_unit(lines):
-    return core.run_lean(lines, main="Driver/Main_Jac.lean")
+    return core.run_lean(lines)
 
 
 # ----------------------------------------------------------------------------- shared helpers (also used by c17 / c19)
@@ -262,6 +262,35 @@ def wrappers(U):
     ]
 
 
+def order_cover_cases(U, what):
+    """vectorised sums × ALL orderings of (the vector's elements + 1 or 2 foreign variables): the index
+    arithmetic of the sparse closures (`indices`, `is_full`) depends on how the vector's elements sit inside V —
+    contiguous, permuted, with a foreign variable inside the span, …  (24 orders for 3 + 1, 120 for 3 + 2 / 4 + 1)"""
+    import itertools
+    from optyx.core import vectors as Vc
+
+    x, w = U.x, U.w
+    a, y0 = U.scalars[0], U.y[0]
+    out = []
+    small = list(x) + [a]
+    ks = (1, 2, 3, 0.5, -1, 2.5, 0, 4) if what == "jac" else (2, 3, 0.5, -1, 2.5, 0, 4, 1)
+    nodes24 = [(f"ps{k}:x", Vc.VectorPowerSum(x, k)) for k in ks] + \
+              [(f"us{op}:x", Vc.VectorUnarySum(x, op)) for op in gen.VOPS]
+    for tag, node in nodes24:
+        for perm in itertools.permutations(small):
+            out.append((f"{tag}|orders3+1|id", [node], list(perm), U))
+    big = [("ps3:x", Vc.VectorPowerSum(x, 3), list(x) + [a, y0]),
+           ("uslog:x", Vc.VectorUnarySum(x, "log"), list(x) + [a, y0]),
+           ("ussin:x", Vc.VectorUnarySum(x, "sin"), list(x) + [a, y0]),
+           ("ps2.5:w[0:4]", Vc.VectorPowerSum(w[0:4], 2.5), list(w[0:4]) + [a]),
+           ("uscos:w[0:4]", Vc.VectorUnarySum(w[0:4], "cos"), list(w[0:4]) + [a]),
+           ("usexp:w[3:0:-1]", Vc.VectorUnarySum(w[3:0:-1], "exp"), list(w[1:4]) + [a, y0])]
+    for tag, node, pool in big:
+        for perm in itertools.permutations(pool):
+            out.append((f"{tag}|orders120|id", [node], list(perm), U))
+    return out
+
+
 def cell_cases(rng):
     U = gen.Universe(rng)
     nodes = row_nodes(rng, U)
@@ -279,6 +308,7 @@ def cell_cases(rng):
         for wn, wf in (wr[1], wr[4], wr[5], wr[10]):
             vt, V = alt[rng.randrange(len(alt))]
             cases.append((f"{vt}|{wn}", [wf(node)], V, U))
+    cases += order_cover_cases(U, "jac")
     # degenerate shapes: no expressions / no variables (structural + path comparison only)
     cases.append(("edge:m0|own|id", [], [U.x[0], U.x[1]], U))
     cases.append(("edge:n0|own|id", [U.x.sum()], [], U))
